@@ -221,6 +221,9 @@ func zzC06(nPods int) {
 	nondet.Assert("C06.unpause.overrides-pause", nondet.Implies(nondet.And(unpaused, !res.IsFailed), !res.IsPaused))
 	// "while the canary is paused or failed no further canary pod is created"
 	nondet.Assert("C06.no-create-when-stopped", nondet.Implies(nondet.Or(res.IsPaused, res.IsFailed), len(res.PodsToCreate) == 0))
+	// ... in particular while the user's pause annotation says true (and no unpause overrides it), whatever
+	// conditions earlier pauses and unpauses left on the replica set
+	nondet.Assert("C06.no-create-while-paused-by-the-user", nondet.Implies(nondet.And(annPaused, !unpaused), nondet.And(len(res.PodsToCreate) == 0, nondet.Or(res.IsPaused, res.IsFailed))))
 	// the persisted conditions agree with the verdicts
 	failedCond, pausedCond := false, false
 	for _, c := range res.NewStatus.Conditions {
